@@ -30,6 +30,8 @@ fn main() {
         "replay-search" => search::replay(&opts),
         "record-search" => search::record(&opts),
         "compare-table" => search::compare_table(&opts),
+        "replay-scc" => search::replay_scc(&opts),
+        "record-scc" => search::record_scc(&opts),
         other => {
             eprintln!("unknown command {}", other);
             std::process::exit(2);
